@@ -23,7 +23,7 @@ func init() {
 	})
 }
 
-var c13Moves = []string{"request", "half-open", "rst-newest", "priority-new", "window-update-new", "headers-open-block", "continuation", "continuation-end", "continuation-unfinished-field", "data-over-limit", "data-over-limit+ES", "data-at-limit+ES", "content-length-over", "request-huge-path", "ping", "settings", "finish-oldest"}
+var c13Moves = []string{"request", "half-open", "rst-newest", "priority-new", "window-update-new", "headers-open-block", "headers-open-block-malformed", "continuation", "continuation-end", "continuation-unfinished-field", "data-over-limit", "data-over-limit+ES", "data-at-limit+ES", "content-length-over", "request-huge-path", "ping", "settings", "finish-oldest"}
 
 type c13Case struct {
 	Path  []int    `json:"path"`
@@ -111,6 +111,12 @@ func (x *c13Run) apply(mv string) {
 		id := x.newID()
 		x.block = id
 		h.SendFrames(peer.Headers(id, reqBlock(id, "POST"), peer.HeadersOpt{Pad: -1}))
+	case "headers-open-block-malformed":
+		// the block opens with an upper-case name: the server resets the stream while the block goes on
+		id := x.newID()
+		x.block = id
+		fields := append([]ref.Field{{Name: "X-Upper", Value: "v"}}, harness.ReqFields("POST", "https", "h", "/m", [2]string{"x-sid", fmt.Sprint(id)})...)
+		h.SendFrames(peer.Headers(id, staticBlock(fields), peer.HeadersOpt{Pad: -1}))
 	case "continuation":
 		h.SendFrames(peer.Continuation(x.block, staticBlock([]ref.Field{{Name: "x-more", Value: valOfLen(40)}}), false))
 	case "continuation-end":
@@ -131,11 +137,11 @@ func (x *c13Run) apply(mv string) {
 	case "continuation-unfinished-field":
 		// a literal whose declared length (1 MiB) never completes: the bytes can only be buffered
 		if x.blockBytes == 0 {
-			h.SendFrames(peer.Continuation(x.block, append([]byte{0x00, 0x01, 'k', 0x7f, 0x81, 0xff, 0x3f}, make([]byte, 4000)...), false))
-			x.blockBytes = 4000
+			h.SendFrames(peer.Continuation(x.block, append([]byte{0x00, 0x01, 'k', 0x7f, 0x81, 0xff, 0x3f}, make([]byte, 12000)...), false))
+			x.blockBytes = 12000
 		} else {
-			h.SendFrames(peer.Continuation(x.block, make([]byte, 8000), false))
-			x.blockBytes += 8000
+			h.SendFrames(peer.Continuation(x.block, make([]byte, 16000), false))
+			x.blockBytes += 16000
 		}
 	case "content-length-over":
 		id := x.newID()
